@@ -2,6 +2,7 @@
 Model of `filters::bloomfilter::BloomFilter` (FixedBitSet = `Array Bool`).
 -/
 import Pds.Model.HashIter
+import Pds.Model.Sizing
 namespace Pds.Bloom
 
 structure St where
@@ -54,11 +55,7 @@ def isEmpty (s : St) : Bool := s.bits.all (· == false)
 
 def ones (s : St) : Nat := s.bits.foldl (fun c b => if b then c + 1 else c) 0
 
-/-- `len()`: `(-m / k * ln(1 - x/m)) as usize`. -/
-def len (s : St) : Nat :=
-  let m := Float.ofNat s.m
-  let k := Float.ofNat s.k
-  let x := Float.ofNat (ones s)
-  ((-m) / k * (1 - x / m).log).toUInt64.toNat
+/-- `len()`: `(-m / k * ln(1 - x/m)) as usize` (the formula is `Sizing.bloomLen`) -/
+def len (s : St) : Nat := Sizing.bloomLen (α := Float) s.m s.k (ones s)
 
 end Pds.Bloom
